@@ -56,6 +56,12 @@ fn main() {
         }
         return;
     }
+    if args.len() >= 2 && args[1] == "c16-kernels" {
+        for (name, src) in boa_sim::props::c16::litmus_kernel_sources() {
+            println!("{}", serde_json::json!({"name": name, "src": src}));
+        }
+        return;
+    }
     if args.len() >= 2 && args[1] == "list" {
         for p in boa_sim::props() {
             println!("{}", p.id);
